@@ -30,6 +30,10 @@ type KerxSubtable struct {
 
 // check and return the subtable length
 func (ks *KerxSubtable) parseEnd(src []byte, _ int) (int, error) {
+	const headerSize = 12
+	if ks.length < headerSize {
+		return 0, fmt.Errorf("invalid kerx subtable length: %d", ks.length)
+	}
 	if L := len(src); L < int(ks.length) {
 		return 0, fmt.Errorf("EOF: expected length: %d, got %d", ks.length, L)
 	}
